@@ -475,6 +475,11 @@ def call_method(interp, base, name, node, args, kwargs, st):
                 if ax_ is not None and ax_.has_const() and ax_.const in (1, -1):
                     with_ring(out_, rb_)
         return out_
+    if name == "index" and base.kind in ("list", "tuple") and base.items is not None and args and args[0].has_const() \
+            and all(i_ is not None and i_.has_const() for i_ in base.items):
+        consts_ = [i_.const for i_ in base.items]
+        if args[0].const in consts_:
+            return vconst(consts_.index(args[0].const))         # position of a known constant in a known sequence
     if name in ("all", "any"):
         interp.emit(st, "reduce", node, fn=name, target=base, axis=_arg(args, kwargs, 0, "axis"), method=True)
         return Val(dim=D0, kind="bool", deps=deps, pdeps=pdeps, born=t)
